@@ -27,6 +27,10 @@ CHECKS = {
    technique='complete enumeration of the finite request grid; acceptance compared cell by cell with the transpiled reference GENBBsub (kernel stubbed) and README rules',
    text='The complete product (54 names x levels -1..17 x modes 0..25 x 4 window variants = 106704 requests) is issued to fresh decay0_generator instances; accept/reject is compared with the reference rules evaluated on the transpiled Fortran; rejected requests must throw, stay un-initialised and refuse to shoot; accepted ones must produce events satisfying the C03/C04 invariants; mode labels round-trip.',
    note='Trusted: transpiled GENBBsub rules; gA acceptance against synthetic datasets; README rule for mode 20 (ground state only) overrides the Fortran coercion.'),
+ 'C09': dict(level='model_checking', ref='DESIGN.md §2 C09', engine='c09',
+   technique='explicit-state breadth-first search over public API call sequences, histories replayed on fresh objects, conformance with a reference state machine on every transition',
+   text='All sequences of an 18-operation alphabet (setters with valid and invalid arguments, add_operation(MDL|null), initialize, shoot, reset, destroy+new) up to depth 7 (quick) / 8 (thorough, with and without gA data) are executed on real decay0_generator objects; after every transition exception/no-exception, every getter, defaults after reset and a probe shot against a fresh instance are compared with a boring reference machine whose validity predicate is the transpiled reference rule set.',
+   note='Trusted: reference machine written from the literal property text; merge of states justified by the reference state plus a sticky refused-operation mark; bounds 2 operations / 2 shots per history.'),
 }
 NOT_YET = {
 }
@@ -64,6 +68,7 @@ def main():
         'engines': [
             {'name': 'dx', 'path': 'checks/dx.cc', 'serves_properties': ['C01', 'C02', 'C03', 'C04', 'C08'], 'kind_free_text': 'deviate-choice explorer: forced-position overlay on a counter-hash stream, threshold discovery on the transpiled Fortran model, layers A (edge coverage), B (deviation bounded), C (all discrete paths)'},
             {'name': 'c06', 'path': 'checks/c06.cc', 'serves_properties': ['C06'], 'kind_free_text': 'complete grid enumeration of initialisation requests against the reference rules'},
+            {'name': 'c09', 'path': 'checks/c09.cc', 'serves_properties': ['C09'], 'kind_free_text': 'explicit-state BFS over API histories with a reference state machine'},
             {'name': 'd0ref', 'path': 'tools/f2cxx.py', 'serves_properties': ['C01', 'C02', 'C06'], 'kind_free_text': 'reference model generated from resources/code/decay0/decay0_2020-04-20.for'},
         ],
         'checks': checks,
